@@ -394,6 +394,13 @@ func runC17(t *testing.T, scAny any, trace bool) *Outcome {
 						}
 						live := serverTasks(simrt.LiveTasks())
 						if len(live) > 0 {
+							// a per-request goroutine that has delivered its result may still be executing its last
+							// statements (its final unlock) when Stop returns: give such a tail 10 simulated ms; what is
+							// blocked on a connection, a lock or a stalled backend call is still there afterwards
+							simrt.Sleep(10 * time.Millisecond)
+							live = serverTasks(simrt.LiveTasks())
+						}
+						if len(live) > 0 {
 							o.Vio("C17.goroutine-remains-after-stop", "where="+blockedWhere(live[0]), "admin %d: Stop returned nil at t=%v but server goroutines remain: %v", ai, now(), live)
 						}
 						if cc, mm := absnfs.VerifConnCounts(srv); cc != 0 || mm != 0 {
@@ -498,7 +505,14 @@ func runC17(t *testing.T, scAny any, trace bool) *Outcome {
 		o.Tick()
 		if err1 != nil || err2 != nil {
 			o.Vio("C17.stop-timed-out", "final", "final Stop: %v / repeated Stop: %v", err1, err2)
-		} else if live := serverTasks(simrt.LiveTasks()); len(live) > 0 {
+		} else if live := func() []string {
+			l := serverTasks(simrt.LiveTasks())
+			if len(l) > 0 {
+				simrt.Sleep(10 * time.Millisecond)
+				l = serverTasks(simrt.LiveTasks())
+			}
+			return l
+		}(); len(live) > 0 {
 			o.Vio("C17.goroutine-remains-after-stop", "final,where="+blockedWhere(live[0]), "after the final Stop server goroutines remain: %v", live)
 		}
 		if e := w.NFS.Close(); e != nil {
